@@ -7,15 +7,23 @@ PID = "C14"
 
 def sig_of(e, o):
     c = e["c"]
-    return "case=%s|%s|req%d%s|gr%d%s|%s|skew=%s|allow%d|url=%s|opts=%s:status=%s,ran=%s" % (
+    s = "case=%s|%s|req%d%s|gr%d%s|%s|skew=%s|allow%d|url=%s|opts=%s" % (
         c["hdr"], c["ver"], len(c["req"]), "" if c["rform"] == "exact" else c["rform"],
-        len(c["granted"]), "" if c["gform"] == "exact" else c["gform"], c["exp"], c["skew"], int(c["allow"]), c["url"], c["opts"],
-        o["status"], int(o["ran"]))
+        len(c["granted"]), "" if c["gform"] == "exact" else c["gform"], c["exp"], c["skew"], int(c["allow"]), c["url"], c["opts"])
+    timed = c.get("dur", "0") != "0"
+    if timed:
+        s += "|dur=" + c["dur"]  # the verifier takes time: the duration class ...
+    s += ":status=%s,ran=%s" % (o["status"], int(o["ran"]))
+    if timed:
+        s += ",arrived=%sd,decided=%sd" % (o["arr"], o["dec"])  # ... and the instants of the outcome, in verifier calls
+    return s
 
 
 def run(tier, seed, replay):
     v = vlib.Verdict(PID, tier, seed)
-    v.assumptions = ["time.Now is frozen by testing/synctest so the expiry boundary is exact",
+    v.assumptions = ["time.Now is the virtual clock of testing/synctest: frozen, so the expiry boundary is exact, except while the "
+                     "scripted verifier of the duration slice is at work (it sleeps d; every instant of a run is a multiple of d, "
+                     "checked by the harness against the clock)",
                      "every value class (header shape, expiration and skew magnitude, scope-list form, URL form) is concretised "
                      "with seeded representatives; the harness checks each expiration/skew representative against its class "
                      "in exact integer arithmetic",
@@ -64,8 +72,8 @@ def run(tier, seed, replay):
     v.cov["traces_validated_against_impl"] = 2 * len(rows)
     v.cov["evaluations"] = 2 * len(rows)
     v.cov["distinct_nontrivial"] = len({json.dumps(r["c"], sort_keys=True) for r in rows if r["c"]["hdr"] != "absent"})
-    v.cov["rule"] = ("complete union of products enumerated by TLC (Bearer!CaseParts: core product + time, header, scope-list and "
-                     "challenge slices); non-trivial = an Authorization header is present; every case is run on %d (core) / %d (slices) "
+    v.cov["rule"] = ("complete union of products enumerated by TLC (Bearer!CaseParts: core product + time, header, scope-list, "
+                     "challenge and verifier-duration slices); non-trivial = an Authorization header is present; every case is run on %d (core) / %d (slices) "
                      "seeded representative(s), each presented twice" % (reps, reps_slice))
     v.cov["exhaustive"] = not replay
     v.cov["admitted"] = sum(int(r["o1"]["ran"]) + int(r["o2"]["ran"]) for r in rows)
